@@ -700,6 +700,7 @@ func exec(op string) string {
 			return "bad-op"
 		}
 		R.reset(beh)
+		R.hc = kvs(ws, "hc")
 		var cb apientry.HandlerCBFunc
 		switch hx.KVInt(ws, "cb") {
 		case 1:
@@ -744,6 +745,7 @@ func exec(op string) string {
 			return "bad-op"
 		}
 		R.reset(beh)
+		R.hc = kvs(ws, "hc")
 		route := string(hx.KVHex(ws, "route"))
 		svc := service.NewService()
 		svc.Context = &recCtx{}
@@ -754,6 +756,10 @@ func exec(op string) string {
 		if kvs(ws, "via") == "recv" {
 			// through Service.Receive -> handleRequest: API dispatcher first, then the legacy receiver
 			req.Type = string(gproto.MessageName(&msgs.TestHello{}))
+			if kvs(ws, "body") == "bad" {
+				// a message type the receiving process does not know: remote.Deserialize fails in the fall-through
+				req.Type = "verif.NoSuchMessageType"
+			}
 			legacy := false
 			switch kvs(ws, "legacy") {
 			case "absent":
@@ -1258,6 +1264,17 @@ func (g *gen) beh() string {
 	return behNames[h.R.Intn(len(behNames))]
 }
 
+// hc: how the zoo handler completes - half of the calls through apientry.CheckInvokeCBFunc (the helper every handler of
+// the repository completes through), else by calling the function it was handed itself
+func (g *gen) hc() string {
+	if g.h.R.Intn(2) == 0 {
+		g.h.Count("handler-completes.through-helper")
+		return " hc=helper"
+	}
+	g.h.Count("handler-completes.directly")
+	return ""
+}
+
 func (g *gen) hasOp() string {
 	t := g.target()
 	return fmt.Sprintf("has col=%d route=%s", t.col, hx16(t.route))
@@ -1335,8 +1352,8 @@ func (g *gen) cszOp() string {
 	h.Count("csz.ser." + ser)
 	h.Count(fmt.Sprintf("csz.cb%d", cb))
 	h.Count("ctx." + ctx)
-	return fmt.Sprintf("csz col=%d route=%s ser=%s ctx=%s ctxt=%s cb=%d beh=%s data=%s%s", t.col, hx16(t.route), ser, ctx, ctxTypeHex(ctx),
-		cb, beh, hx.Hex(data), decodeHints(ser, data))
+	return fmt.Sprintf("csz col=%d route=%s ser=%s ctx=%s ctxt=%s cb=%d beh=%s%s data=%s%s", t.col, hx16(t.route), ser, ctx, ctxTypeHex(ctx),
+		cb, beh, g.hc(), hx.Hex(data), decodeHints(ser, data))
 }
 
 func (g *gen) callOp() string {
@@ -1371,8 +1388,8 @@ func (g *gen) callOp() string {
 	h.Count("call.arg." + an)
 	cb, beh := g.cbBeh(t)
 	h.Count(fmt.Sprintf("call.cb%d", cb))
-	return fmt.Sprintf("call col=%d route=%s ctx=%s ctxt=%s cb=%d beh=%s arg=%s argt=%s argv=%s", t.col, hx16(t.route), ctx, ctxTypeHex(ctx),
-		cb, beh, an, argt, argv)
+	return fmt.Sprintf("call col=%d route=%s ctx=%s ctxt=%s cb=%d beh=%s%s arg=%s argt=%s argv=%s", t.col, hx16(t.route), ctx, ctxTypeHex(ctx),
+		cb, beh, g.hc(), an, argt, argv)
 }
 
 func (g *gen) dispOp() string {
@@ -1416,7 +1433,7 @@ func (g *gen) dispOp() string {
 	}
 	route := t.route
 	if h.R.Intn(3) == 0 {
-		// through Service.Receive/handleRequest; the body always deserialises (a failing remote.Deserialize is C07's)
+		// through Service.Receive/handleRequest; the body deserialises unless body=bad
 		data = g.payloadFor("proto", nil)
 		legacy := []string{"silent", "silent", "absent", "answers", "answers"}[h.R.Intn(5)]
 		extra += " via=recv legacy=" + legacy
@@ -1429,8 +1446,13 @@ func (g *gen) dispOp() string {
 			route = ""
 			h.Count("disp.via-receive.empty-route")
 		}
+		if h.R.Intn(8) == 0 {
+			// the body cannot be deserialised by the receiving process (unknown type name): only the fall-through looks at it
+			extra += " body=bad"
+			h.Count("disp.via-receive.undeserialisable-body")
+		}
 	}
-	return fmt.Sprintf("disp cols=%s route=%s reqid=%d beh=%s rc=%s%s data=%s%s", strings.Join(cols, ","), hx16(route), reqid, beh,
+	return fmt.Sprintf("disp cols=%s route=%s reqid=%d beh=%s%s rc=%s%s data=%s%s", strings.Join(cols, ","), hx16(route), reqid, beh, g.hc(),
 		hx16(reflect.TypeOf(service.NewRemoteContext()).String()), extra, hx.Hex(data), decodeHints("proto", data))
 }
 
